@@ -5,6 +5,7 @@ import YkDrv.NodeDrv
 import YkDrv.StreamDrv
 import YkDrv.QueueDrv
 import YkDrv.CoreDrv
+import YkDrv.SortDrv
 open Lean YkDrv
 
 structure DrvState where
@@ -18,6 +19,7 @@ def dispatch (st : DrvState) (j : Json) : Except String (DrvState × String) := 
   match c with
   | "res" => pure (st, ← resStep j)
   | "ring" => let (r, v) ← ringStep st.ring j; pure ({ st with ring := r }, v)
+  | "sort" => pure (st, ← sortStep j)
   | "stream" => pure (st, ← streamStep j)
   | "core" => let (r, v) ← coreStep st.core j; pure ({ st with core := r }, v)
   | "queue" => let (r, v) ← queueStep st.queue j; pure ({ st with queue := r }, v)
